@@ -145,7 +145,9 @@ Definition field_decl_ok (inoneof : bool) (num : N) (p : property) (df : dfield)
   f_num df = num /\
   f_type df = decl_ptype (prop_field p) /\
   f_label df = (if is_repeated (prop_field p) then LRepeated else LOptional) /\
-  f_opt3 df = prop_optional p /\
+  (* optionality: proto3_optional exactly for the properties declared optional; cardinality
+     "repeated" has no presence, so an optional array / map is a plain repeated field *)
+  f_opt3 df = (prop_optional p && negb (is_repeated (prop_field p))) /\
   f_oneof df = inoneof.
 
 (* the fields of a message are exactly the declared properties, in order, numbered from
